@@ -185,11 +185,27 @@ package bridgesync
 //@   trusted
 //@   modifies nothing
 //@   sqltext "SELECT * FROM %s WHERE block_num >= $1 AND block_num <= $2 ORDER BY block_num ASC, block_pos ASC;"
+// the last processed block (the restart point of the download, C05): bsLastBlockRow is the highest block row, -1 when the
+// table is empty (assumed at the library boundary, A5); the function itself is proved: an empty table - and only that -
+// is answered with block 0, a storage failure is reported and never read as "nothing processed yet"
+//@ ghost var bsLastBlockRow int
+//@ ghost var bsLastBlockScanFaults int
+//@ interface github.com/agglayer/aggkit/db/types.Querier.QueryRow@bridgesync.(*processor).getLastProcessedBlockWithTx (self, query, args)
+//@   modifies nothing
+//@   ensures result != nil
+//@ extern (*database/sql.Row).Scan@bridgesync.(*processor).getLastProcessedBlockWithTx (r, dest)
+//@   requires len(dest) == 1 && typeIs(dest[0], *uint64) && cast(dest[0], *uint64) != nil
+//@   modifies *cast(dest[0], *uint64), bsLastBlockScanFaults
+//@   ensures bsLastBlockScanFaults == old(bsLastBlockScanFaults) + ite(result != nil && !isErr(result, sql.ErrNoRows), 1, 0)
+//@   ensures result == nil ==> bsLastBlockRow >= 0 && *cast(dest[0], *uint64) == bsLastBlockRow
+//@   ensures (result != nil && isErr(result, sql.ErrNoRows)) ==> bsLastBlockRow == -1
 //@ func (p *processor) getLastProcessedBlockWithTx
 //@   props C02 C03 C05
-//@   trusted
-//@   modifies nothing
+//@   requires tx != nil
+//@   modifies bsLastBlockScanFaults
 //@   sqltext "SELECT num FROM block ORDER BY num DESC LIMIT 1;"
+//@   ensures[the-highest-block-row-or-zero-when-empty] result1 == nil ==> result0 == ite(bsLastBlockRow == -1, 0, bsLastBlockRow) && bsLastBlockRow >= -1
+//@   ensures[a-storage-failure-is-reported] result1 == nil ==> bsLastBlockScanFaults == old(bsLastBlockScanFaults)
 //@ func (p *processor) GetBridges
 //@   props C02 C03
 //@   trusted
